@@ -437,6 +437,46 @@ def run(ctx):
         ctx.count('pct_signs_' + ('0' if '%' not in s else '1-6' if s.count('%') < 7 else '7+'))
         ctx.count('bytes_' + ('<100' if len(s.encode()) < 100 else '<1000' if len(s.encode()) < 1000 else '>=1000'))
 
+    # ---------------- 2b. very long inputs (decoded size 60 KB .. 300 KB, around the multiples of 64 KiB): oracle only - the
+    # model correspondence stays on the strings above (a 1 MB driver line per call is too slow), the theorems are size-independent
+    def big_string(s, kind):
+        bad = None
+        for plus in (True, False):
+            d = call(uri.decode, s, unquote_plus=plus)
+            if not isinstance(d, str):
+                bad = bad or f'decode(unquote_plus={plus}) raised {type(d).__name__}: {d}'
+                continue
+            r2 = ref_decode_urllib(s, plus)
+            if d != r2:
+                i = next((j for j, (x, y) in enumerate(zip(d, r2)) if x != y), min(len(d), len(r2)))
+                bad = bad or (f'decode(unquote_plus={plus}) of a {len(s)}-character input differs from urllib.unquote_to_bytes at character {i}: '
+                              f'{d[max(0, i - 3):i + 6]!r} vs {r2[max(0, i - 3):i + 6]!r} (lengths {len(d)} / {len(r2)})')
+        ctx.oracle('decode == reference decoder (own left-to-right scanner and urllib.parse.unquote_to_bytes), never raises',
+                   bad is None, bad, {'fn': 'decode', 'input_len': len(s), 'input_head': s[:60], 'input_unit': kind})
+        ctx.seen(('big', kind, len(s)), True)
+        ctx.count('huge_' + kind.split(':')[0])
+
+    for _ in range(ctx.n(10, 40)):
+        unit = rnd.choice(['€', 'é', '\U0001F600', 'é€', 'a€', '€\U0001F600é', 'Ж'])
+        target = rnd.choice([65536, 65536, 131072, 196608]) + rnd.choice([-7, -2, -1, 0, 1, 2, 3, 5, 4000])
+        lead = 'x' * rnd.randint(0, 4)
+        reps = max(1, (target - len(lead)) // len(unit.encode())) + rnd.randint(0, 3)
+        text = lead + unit * reps
+        form = rnd.choice(['escaped', 'escaped', 'raw', 'mixed'])
+        if form == 'escaped':
+            s_big = ''.join('%%%02X' % b if b >= 0x80 else chr(b) for b in text.encode())
+        elif form == 'raw':
+            s_big = text + '%41'
+        else:
+            s_big = lead + (unit + ''.join('%%%02x' % b for b in unit.encode())) * (reps // 2 + 1)
+        big_string(s_big, f'{form}:{unit.encode().hex()}')
+        if form == 'escaped':
+            rt = call(uri.decode, call(uri.encode_value, text), unquote_plus=False)
+            okrt = rt == text
+            ctx.oracle('round trip: decode(encode_value(s)) == s (both unquote_plus), decode(encode(s), unquote_plus=False) == s', okrt,
+                       None if okrt else f'decode(encode_value(s)) != s for a {len(text)}-character s = {lead!r} + {unit!r} * {reps}: lengths {len(rt) if isinstance(rt, str) else rt!r} / {len(text)}',
+                       {'fn': 'roundtrip', 'input_len': len(text), 'input_unit': unit, 'lead': lead, 'reps': reps})
+
     # ---------------- 3. parse_host on RFC 3986 authorities
     def reg_name():
         return ''.join(rnd.choice(['a', 'b', 'example', '.', '-', '~', '_', '1', '%41', '!', '$', '&', "'", '(', ')', '*', '+', ',', ';', '=', 'xn--', 'org'])
@@ -465,7 +505,8 @@ def run(ctx):
         hostpart = reg_name() if form == 'reg' else ipv4() if form == 'v4' else '[' + ip_literal() + ']'
         want_host = hostpart[1:-1] if form == 'v6' else hostpart
         pk = rnd.choice(['absent', 'empty', 'digits', 'digits', 'digits'])
-        port = '' if pk != 'digits' else rnd.choice(['0', '80', '443', '8080', '65535', '00080', str(rnd.randrange(100000))])
+        port = '' if pk != 'digits' else rnd.choice(['0', '80', '443', '8080', '65535', '00080', str(rnd.randrange(100000)),
+                                                    rnd.choice(['000080', '0000000443', '000000', '100000', '4294967296', '0' * 30 + '1', str(rnd.randrange(10 ** 25))])])   # RFC 3986: port = *DIGIT, any length
         auth = hostpart + ('' if pk == 'absent' else ':' + port)
         if form == 'reg' and hostpart.startswith('['):
             continue
